@@ -194,6 +194,48 @@ def _members(ctx, eligible_only=False):
     return out
 
 
+# tar member kinds of the 'tar_kinds' parts.  Only a regular member owns content (of symbolic size);
+# a hard / symbolic link names another member (or nothing), its own header declares size 0
+TAR_KINDS = ["reg", "dir", "lnk", "sym", "fifo"]
+
+
+def _tar_members(ctx):
+    """1..N tar members: name kind, member kind and (links) the member pointed at are choices.
+    Returns ([(name, eligible, size)], {name: (kind, linkname)})"""
+    import posixpath
+    N = ctx.params.get("N", 2)
+    name_set = ctx.params.get("names") or list(range(len(NAME_KINDS)))
+    kind_set = ctx.params.get("tkinds") or [0, 1, 2, 3]
+    fix = ctx.params.get("fix") or {}
+
+    def pick(name, n):
+        return fix[name] if name in fix else ctx.choice(name, n)
+
+    n = 1 + ctx.choice("n_members", N)
+    names, kinds = [], []
+    for i in range(n):
+        nk = name_set[pick(f"name_kind{i}", len(name_set))]
+        names.append((NAME_KINDS[nk][0].format(i=i), NAME_KINDS[nk][1]))
+        kinds.append(TAR_KINDS[kind_set[pick(f"tar_kind{i}", len(kind_set))]])
+    out, meta = [], {}
+    for i in range(n):
+        nm, eligible = names[i]
+        linkname = ""
+        if kinds[i] in ("lnk", "sym"):
+            others = [j for j in range(n) if j != i]
+            t = ctx.choice(f"link_target{i}", n)         # one of the other members, or (last) nothing
+            target = names[others[t]][0] if t < len(others) else "missing.txt"
+            if kinds[i] == "sym":
+                # a symbolic link's name is relative to the directory of the link
+                linkname = posixpath.relpath(target, posixpath.dirname(nm) or ".")
+            else:
+                linkname = target
+        size = ctx.fresh_int(f"size{i}", 0, SIZE_HI) if kinds[i] == "reg" else 0
+        out.append((nm, eligible, size))
+        meta[nm] = (kinds[i], linkname)
+    return out, meta
+
+
 def _rec_extractor(log):
     def get(basename):
         def extractor(file_bytes, path=None):
@@ -378,7 +420,7 @@ def _k1_entry(ctx):
         ctx.require(out == [], "skipped-entry-yielded", out=repr(out)[:80])
 
 
-def _container_stubs(kind, log, members):
+def _container_stubs(kind, log, members, tar_meta=None):
     """the names zipfile / tarfile / SevenZipFile as seen from archive_extractor"""
     import tarfile as real_tar
     import zipfile as real_zip
@@ -415,34 +457,137 @@ def _container_stubs(kind, log, members):
         ZipFile = ZF
         BadZipFile = real_zip.BadZipFile
 
+    TYPE_OF = {"reg": real_tar.REGTYPE, "dir": real_tar.DIRTYPE, "lnk": real_tar.LNKTYPE,
+               "sym": real_tar.SYMTYPE, "fifo": real_tar.FIFOTYPE}
+
     class TMember:
-        def __init__(self, nm, size):
-            self.name, self.size = nm, size
+        """tarfile.TarInfo stand-in: the header fields and type predicates of the real class"""
+        mode, uid, gid, uname, gname, mtime, chksum, devmajor, devminor = 0o644, 0, 0, "", "", 0, 0, 0, 0
+        offset = offset_data = 0
+        pax_headers = {}
+        sparse = None
+
+        def __init__(self, nm, size, kind="reg", linkname=""):
+            self.name, self.size, self.type, self.linkname = nm, size, TYPE_OF[kind], linkname
+
+        path = property(lambda self: self.name)
+        linkpath = property(lambda self: self.linkname)
 
         def isreg(self):
-            return True
+            return self.type in real_tar.REGULAR_TYPES
+
+        def isfile(self):
+            return self.isreg()
+
+        def isdir(self):
+            return self.type == real_tar.DIRTYPE
+
+        def issym(self):
+            return self.type == real_tar.SYMTYPE
+
+        def islnk(self):
+            return self.type == real_tar.LNKTYPE
+
+        def ischr(self):
+            return self.type == real_tar.CHRTYPE
+
+        def isblk(self):
+            return self.type == real_tar.BLKTYPE
+
+        def isfifo(self):
+            return self.type == real_tar.FIFOTYPE
+
+        def issparse(self):
+            return False
+
+        def isdev(self):
+            return self.type in (real_tar.CHRTYPE, real_tar.BLKTYPE, real_tar.FIFOTYPE)
 
     class TExtracted:
-        def __init__(self, m):
-            self.m = m
+        """file object of the member that owns the content; ``opened`` is the member it was asked for"""
 
-        def read(self):
-            log.append(("read", self.m.name))
-            return FakeData(self.m.size)
+        def __init__(self, m, opened):
+            self.m, self.opened = m, opened
 
-    class TF:
         def __enter__(self):
             return self
 
         def __exit__(self, *a):
             return False
 
+        def close(self):
+            pass
+
+        def read(self, *a):
+            log.append(("read", self.m.name, self.opened.name))
+            return FakeData(self.m.size)
+
+    class TF:
+        """tarfile.TarFile stand-in; extractfile / _find_link_target / _getmember follow the stdlib
+        (3.12): a link's file object is its target's file object, symbolic links are resolved
+        against the whole archive relative to the link's directory, hard links against the members
+        before the link, an unresolvable link raises KeyError, other members without data give None"""
+
+        def __init__(self):
+            self.members = []
+            for nm, _, size in members:
+                kind, linkname = (tar_meta or {}).get(nm, ("reg", ""))
+                self.members.append(TMember(nm, size, kind, linkname))
+
+        def __enter__(self):
+            return self
+
+        def __exit__(self, *a):
+            return False
+
+        def __iter__(self):
+            return iter(self.members)
+
         def getmembers(self):
-            return [TMember(nm, size) for nm, _, size in members]
+            return list(self.members)
+
+        def getnames(self):
+            return [m.name for m in self.members]
+
+        def _getmember(self, name, before=None):
+            ms = self.members if before is None else self.members[:self.members.index(before)]
+            name = os.path.normpath(name)
+            for m in reversed(ms):
+                if os.path.normpath(m.name) == name:
+                    return m
+            return None
+
+        def getmember(self, name):
+            m = self._getmember(name.rstrip("/"))
+            if m is None:
+                raise KeyError("filename %r not found" % name)
+            return m
+
+        def _find_link_target(self, m):
+            if m.issym():
+                linkname = "/".join(filter(None, (os.path.dirname(m.name), m.linkname)))
+                t = self._getmember(linkname)
+            else:
+                linkname = m.linkname
+                t = self._getmember(linkname, before=m)
+            if t is None:
+                raise KeyError("linkname %r not found" % linkname)
+            return t
+
+        def _open(self, m, opened, depth):
+            if depth > 100:
+                raise RecursionError("maximum recursion depth exceeded")     # a cycle of symbolic links
+            if m.isreg() or m.type not in real_tar.SUPPORTED_TYPES:
+                return TExtracted(m, opened)
+            if m.islnk() or m.issym():
+                return self._open(self._find_link_target(m), opened, depth + 1)
+            return None
 
         def extractfile(self, m):
+            if isinstance(m, str):
+                m = self.getmember(m)
             log.append(("open-member", m.name))
-            return TExtracted(m)
+            return self._open(m, m, 0)
 
     class TarMod:
         TarError = real_tar.TarError
@@ -464,14 +609,18 @@ def _k1_members(ctx):
     ae = _ae()
     kind = ctx.params["site"]
     live = ctx.params["limits"] == "live"
-    members = _members(ctx)
+    tar_meta = None
+    if kind == "tar" and ctx.params.get("tar_kinds"):
+        members, tar_meta = _tar_members(ctx)
+    else:
+        members = _members(ctx)
     if live:
         lm, le = ae._config.max_memory_size, ae.MAX_ARCHIVE_FILE_SIZE
     else:
         lm = ctx.fresh_int("member_limit", 0, SIZE_HI)
         le = ae.MAX_ARCHIVE_FILE_SIZE if kind == "7z" else ctx.fresh_int("entry_limit", 0, SIZE_HI)
     log = []
-    stubs = _container_stubs(kind, log, members)
+    stubs = _container_stubs(kind, log, members, tar_meta)
     stubs["_get_file_extractor_cached"] = _rec_extractor(log)
     if not live:
         stubs["_config"] = ae.ArchiveConfig(max_memory_size=lm)
@@ -485,13 +634,23 @@ def _k1_members(ctx):
         except Exception as e:
             out = None
             ctx.fail("other-exception", exc=type(e).__name__, msg=str(e)[:100])
+    size_of = {nm: size for nm, _, size in members}
+    tkind = {nm: (tar_meta[nm][0] if tar_meta else "reg") for nm, _, _ in members}
     for nm, eligible, size in members:
+        if tkind[nm] != "reg":
+            continue
+        # the member's content was asked for / delivered: under its own name, or (tar) through a
+        # link member that names it - tarfile.extractfile() follows links
         was_read = any(e[0] in ("read", "open-member") and e[1] == nm for e in log)
+        via = sorted({e[2] for e in log if e[0] == "read" and e[1] == nm and len(e) > 2 and e[2] != nm})
         extracted = any(e[0] == "extract" and e[1].endswith("!/" + nm) for e in log)
         over_m = _over(ctx, size, lm, "member_ge")
         # what the 7z loop hands to the per-entry test is the extracted file, not the declared size
         over_e = False if kind == "7z" else _over(ctx, size, le, "entry_ge")
         info = dict(site=kind, member=nm, read=was_read, extracted=extracted)
+        if tar_meta:
+            info.update(read_through=via, tar_kinds=[tkind[n] for n, _, _ in members],
+                        linknames=[tar_meta[n][1] for n, _, _ in members])
         if kind != "7z":
             if was_read:
                 ctx.require(NOT(over_m), "oversize-member-read", **info)
@@ -501,6 +660,25 @@ def _k1_members(ctx):
             ctx.require(AND(NOT(over_m), NOT(over_e)), "oversize-member-extracted", **info)
         elif eligible:
             ctx.require(OR(over_m, over_e), "member-within-limits-not-extracted", **info)
+    if not tar_meta:
+        return
+    # members that own no content (directories, links, fifos): the property does not say whether a
+    # link is to be extracted, only that whatever is handed on stays within the limits
+    for nm, eligible, _ in members:
+        if tkind[nm] == "reg":
+            continue
+        owners = sorted({e[1] for e in log if e[0] == "read" and len(e) > 2 and e[2] == nm})
+        extracted = any(e[0] == "extract" and e[1].endswith("!/" + nm) for e in log)
+        info = dict(site=kind, member=nm, member_kind=tkind[nm], linkname=tar_meta[nm][1], content_of=owners,
+                    extracted=extracted)
+        if ctx.perturb == "links_are_files" and eligible and tkind[nm] in ("lnk", "sym"):
+            ctx.require(bool(owners), "link-member-not-read", **info)
+        if extracted:
+            ctx.require(bool(owners), "member-without-content-extracted", **info)
+            for o in owners:
+                ctx.require(AND(NOT(_over(ctx, size_of[o], lm, "member_ge")),
+                                NOT(_over(ctx, size_of[o], le, "entry_ge"))),
+                            "oversize-member-extracted", through=nm, **dict(info, member=o))
 
 
 def k1_constants(ctx):
@@ -540,6 +718,19 @@ def _k1_parts(tier):
             parts.append({"site": site, "limits": lim})
         for site in ("zip", "tar", "7z"):
             parts.append({"site": site, "limits": lim, "N": N})
+        # tar members of every kind (regular, directory, hard link, symbolic link; thorough: fifo),
+        # links pointing at another member or at nothing; one part per kind of the first member(s)
+        if tier == "quick":
+            for k0 in range(4):
+                parts.append({"site": "tar", "limits": lim, "N": 2, "tar_kinds": True, "names": [0, 1, 2],
+                              "fix": {"tar_kind0": k0}})
+        else:
+            for k0 in range(5):
+                parts.append({"site": "tar", "limits": lim, "N": 2, "tar_kinds": True, "tkinds": [0, 1, 2, 3, 4],
+                              "fix": {"tar_kind0": k0}})
+                for k1 in range(5):
+                    parts.append({"site": "tar", "limits": lim, "N": 3, "tar_kinds": True, "names": [0, 1],
+                                  "tkinds": [0, 1, 2, 3, 4], "fix": {"tar_kind0": k0, "tar_kind1": k1}})
     return parts
 
 
@@ -898,42 +1089,114 @@ def _xml_bytes(elem, attrs):
     return n
 
 
-def _k3_judge(ctx, input_bytes, extra=None):
+KNOWN_ODS_VALUE_REPEAT = "C12-ods-repeat-uncapped"
+
+
+def _k3_judge(ctx, input_bytes, extra=None, known_class=None):
+    """known_class: (finding id, predicate over a ledger event).  While the driver found that known
+    finding still reproducing (params['known_active']; its pinned witness is replayed without it on
+    every run), events of exactly its class are not judged again: their counterexamples would use up
+    the engine's per-part counterexample budget (exploration stops after 60) and the rest of the
+    part - where OTHER defects live - would never be visited.  Everything else on the path is
+    judged as usual."""
     K = 0 if ctx.perturb == "zero_multiple" else ctx.params["K"]
-    for (fn, func, line, blank, seqlen, count, alloc) in _ACCT.events:
+    excl = None
+    if known_class and not ctx.perturb and known_class[0] in (ctx.params.get("known_active") or ()):
+        excl = known_class[1]
+    judged = 0
+    for ev in _ACCT.events:
+        (fn, func, line, blank, seqlen, count, alloc) = ev
+        if excl is not None and excl(ev):
+            ctx.note("event-in-class-of-known-finding:" + known_class[0])
+            continue
+        judged += 1
         ctx.require(alloc <= K * input_bytes, "allocation-exceeds-multiple-of-input",
                     site=func, file=fn, line=line, blank=blank, K=K, **(extra or {}))
+    if not judged:
+        ctx.require(True, "no-repetition-outside-known-class")
+
+
+# ODF 1.2 part 1, 9.1: the elements that may carry a column in a table:table-row, and the elements
+# that may stand between table:table and its rows.  Index 0 is the plain form.
+ODS_CELL_ELEMS = ["table-cell", "covered-table-cell"]
+ODS_ROW_WRAPS = [(), ("table-row-group",), ("table-header-rows",), ("table-rows",),
+                 ("table-row-group", "table-row-group"), ("table-row-group", "table-header-rows")]
+# content of a cell element.  0..2 as before; the others are further ways for a cell to carry NO
+# value (what the property's "declared dimensions" are about: sheet filler in all its spellings)
+ODS_CELL_KINDS = ["empty", "string", "float", "empty+comment", "typed-without-value", "empty-paragraph",
+                  "empty+span-attributes"]
+ODS_VALUELESS = (0, 3, 4, 5, 6)
+
+
+def _ods_fill_cell(ET, c, kind):
+    if kind == 1:
+        c.set(f"{{{NS_OFFICE}}}value-type", "string")
+        ET.SubElement(c, f"{{{NS_TEXT}}}p").text = "x"
+    elif kind == 2:
+        c.set(f"{{{NS_OFFICE}}}value-type", "float")
+        c.set(f"{{{NS_OFFICE}}}value", "1")
+    elif kind == 3:
+        # a comment attached to an empty cell: its paragraphs are not the cell's value
+        an = ET.SubElement(c, f"{{{NS_OFFICE}}}annotation")
+        ET.SubElement(an, f"{{{NS_TEXT}}}p").text = "n"
+    elif kind == 4:
+        c.set(f"{{{NS_OFFICE}}}value-type", "float")       # declared type, no office:value, no text
+    elif kind == 5:
+        ET.SubElement(c, f"{{{NS_TEXT}}}p")                 # <text:p/>
+    elif kind == 6:
+        c.set(f"{{{NS_TABLE}}}number-columns-spanned", "1")
+        c.set(f"{{{NS_TABLE}}}number-rows-spanned", "1")
 
 
 def _k3_ods(ctx):
+    """one table:table of ``rows`` rows (each with its own number-rows-repeated) of ``cells`` column
+    carrying elements (each with its own number-columns-repeated); element name, content kind and
+    the grouping elements around the rows are choices"""
     from xml.etree import ElementTree as ET
     from sharepoint2text.parsing.extractors.open_office import ods_extractor as ods
     table = {}
     ncells = ctx.params.get("cells", 1)
+    nrows = ctx.params.get("rows", 1)
+    kind_set = ctx.params.get("kinds") or list(range(len(ODS_CELL_KINDS)))
+    wrap_set = ctx.params.get("wraps") or list(range(len(ODS_ROW_WRAPS)))
     t = ET.Element(f"{{{NS_TABLE}}}table", {f"{{{NS_TABLE}}}name": "s"})
-    row = ET.SubElement(t, f"{{{NS_TABLE}}}table-row")
-    attrs = [_Attr(ctx, "row_repeat", table)]
-    row.set(f"{{{NS_TABLE}}}number-rows-repeated", attrs[0].text)
-    kinds = []
-    for i in range(ncells):
-        kind = ctx.choice(f"cell_kind{i}", 3)          # 0 empty, 1 string, 2 float
-        kinds.append(kind)
-        c = ET.SubElement(row, f"{{{NS_TABLE}}}table-cell")
-        a = _Attr(ctx, f"cell_repeat{i}", table)
+    attrs, kinds, elems, wraps = [], [], [], []
+    fix = ctx.params.get("fix") or {}
+
+    def pick(name, n):
+        # a choice, unless the part pins it (partition of the structure space over the pool)
+        return fix[name] if name in fix else ctx.choice(name, n)
+
+    for r in range(nrows):
+        sfx = "" if r == 0 else f"_r{r}"
+        wrap = wrap_set[pick("row_wrap" + sfx, len(wrap_set))]
+        wraps.append(wrap)
+        parent = t
+        for w in ODS_ROW_WRAPS[wrap]:
+            parent = ET.SubElement(parent, f"{{{NS_TABLE}}}{w}")
+        row = ET.SubElement(parent, f"{{{NS_TABLE}}}table-row")
+        a = _Attr(ctx, "row_repeat" + sfx, table)
         attrs.append(a)
-        c.set(f"{{{NS_TABLE}}}number-columns-repeated", a.text)
-        if kind == 1:
-            c.set(f"{{{NS_OFFICE}}}value-type", "string")
-            ET.SubElement(c, f"{{{NS_TEXT}}}p").text = "x"
-        elif kind == 2:
-            c.set(f"{{{NS_OFFICE}}}value-type", "float")
-            c.set(f"{{{NS_OFFICE}}}value", "1")
+        row.set(f"{{{NS_TABLE}}}number-rows-repeated", a.text)
+        for i in range(ncells):
+            kind = kind_set[pick(f"cell_kind{i}{sfx}", len(kind_set))]
+            elem = pick(f"cell_elem{i}{sfx}", len(ODS_CELL_ELEMS))
+            kinds.append(kind)
+            elems.append(elem)
+            c = ET.SubElement(row, f"{{{NS_TABLE}}}{ODS_CELL_ELEMS[elem]}")
+            a = _Attr(ctx, f"cell_repeat{i}{sfx}", table)
+            attrs.append(a)
+            c.set(f"{{{NS_TABLE}}}number-columns-repeated", a.text)
+            _ods_fill_cell(ET, c, kind)
     with ctx.stub(ods, int=_int_stub(table)):
         try:
             ods._extract_sheet(None, t, 1, 0)
         except Exception as e:
             ctx.fail("other-exception", exc=type(e).__name__, msg=str(e)[:100])
-    _k3_judge(ctx, _xml_bytes(t, attrs), {"cell_kinds": kinds})
+    _k3_judge(ctx, _xml_bytes(t, attrs),
+              {"cell_kinds": [ODS_CELL_KINDS[k] for k in kinds], "cell_elems": [ODS_CELL_ELEMS[e] for e in elems],
+               "row_wraps": ["/".join(ODS_ROW_WRAPS[w]) for w in wraps]},
+              known_class=(KNOWN_ODS_VALUE_REPEAT, lambda ev: ev[1] == "_extract_sheet" and not ev[3]))
 
 
 def _k3_text(ctx):
@@ -1075,15 +1338,48 @@ def k3_sites(ctx):
     ctx.require(sites[i] in K3_DRIVERS, "repetition-site-without-driver", site=list(sites[i]))
 
 
+def _ods_parts(K, cells, rows=1, kinds=None, wraps=None, split=()):
+    """parts of the ODS driver: the choices named in ``split`` are pinned, one part per combination"""
+    import itertools
+    nk = len(kinds) if kinds else len(ODS_CELL_KINDS)
+    nw = len(wraps) if wraps else len(ODS_ROW_WRAPS)
+    dom = {"row_wrap": nw, "cell_kind0": nk, "cell_elem0": len(ODS_CELL_ELEMS),
+           "cell_kind1": nk, "cell_elem1": len(ODS_CELL_ELEMS), "row_wrap_r1": nw}
+    base = {"driver": "ods_sheet", "cells": cells, "K": K}
+    if rows != 1:
+        base["rows"] = rows
+    if kinds:
+        base["kinds"] = list(kinds)
+    if wraps:
+        base["wraps"] = list(wraps)
+    out = []
+    for combo in itertools.product(*[range(dom[n]) for n in split]):
+        p = dict(base)
+        if split:
+            p["fix"] = dict(zip(split, combo))
+        out.append(p)
+    return out
+
+
 def _k3_parts(tier):
     Ks = [4096] if tier == "quick" else [4096, 2 ** 20]
     parts = []
     for K in Ks:
-        parts += [{"driver": "ods_sheet", "cells": 1, "K": K}, {"driver": "ods_sheet", "cells": 2, "K": K},
-                  {"driver": "shared_text", "K": K}, {"driver": "odt_caption", "K": K},
+        # a row without any column element, plain or grouped
+        parts += _ods_parts(K, 0)
+        # one column element: the whole alphabet (7 contents x 2 element names x 6 row groupings)
+        parts += _ods_parts(K, 1, split=("cell_elem0",))
+        # two column elements: empty / string / float x both element names
+        parts += _ods_parts(K, 2, kinds=(0, 1, 2), wraps=(0,), split=("cell_elem0", "cell_kind0"))
+        parts += [{"driver": "shared_text", "K": K}, {"driver": "odt_caption", "K": K},
                   {"driver": "7z_num_files", "K": K}]
     if tier == "thorough":
-        parts.append({"driver": "ods_sheet", "cells": 3, "K": 4096})
+        # two column elements over the whole alphabet
+        parts += _ods_parts(4096, 2, split=("row_wrap", "cell_elem0", "cell_kind0"))
+        parts += _ods_parts(4096, 3, kinds=(0, 1), wraps=(0,), split=("cell_elem0", "cell_kind0", "cell_elem1"))
+        # two rows (each with its own repeat and grouping) of one column element
+        parts += _ods_parts(4096, 1, rows=2, kinds=(0, 1, 2), wraps=(0, 1),
+                            split=("row_wrap", "cell_elem0", "cell_kind0", "row_wrap_r1"))
     return parts
 
 
@@ -1293,23 +1589,36 @@ KERNELS = [
                     ("member_ge", {"site": "zip", "limits": "symbolic"}),
                     ("member_ge", {"site": "tar", "limits": "live"}),
                     ("member_ge", {"site": "7z", "limits": "symbolic"}),
-                    ("entry_ge", {"site": "zip", "limits": "symbolic"})],
+                    ("entry_ge", {"site": "zip", "limits": "symbolic"}),
+                    ("member_ge", {"site": "tar", "limits": "symbolic", "N": 2, "tar_kinds": True,
+                                   "names": [0, 1, 2], "fix": {"tar_kind0": 3}}),
+                    ("links_are_files", {"site": "tar", "limits": "symbolic", "N": 2, "tar_kinds": True,
+                                         "names": [0, 1, 2], "fix": {"tar_kind0": 2}})],
            stubs=["pathlib.Path.stat -> st_size symbolic (replay: a real file when the model's size <= 4096)",
                   "open / get_extractor as seen from sharepoint2text -> recorders",
                   "stream handed to the 7z routine -> stand-in with symbolic length, reads recorded",
                   "zipfile / tarfile / SevenZipFile as seen from archive_extractor -> containers listing 1..N "
                   "members of symbolic declared size; member reads recorded and answered with a payload stand-in of "
                   "the declared length",
+                  "tar (parts 'tar_kinds'): TarInfo stand-in with the full header interface (type, size, linkname, "
+                  "isreg/isfile/isdir/issym/islnk/isdev ...); extractfile() follows hard and symbolic links to the "
+                  "member that owns the content as the stdlib does (unresolvable link: KeyError, link cycle: "
+                  "RecursionError, directory / fifo: None); every read records the owner of the content delivered",
                   "_get_file_extractor_cached -> recording extractor",
                   "_config / MAX_7Z_FILE_SIZE / MAX_ARCHIVE_FILE_SIZE -> symbolic limits (parts 'symbolic'); live "
                   "values (parts 'live')"],
            symbolic=["file size, max_file_size", "7z archive size, 7z limit", "entry data length, entry limit",
                      "declared size of every member, per-member limit, per-entry limit"],
            choices=["entry point (7z routine / read_archive)", "number of members", "member name kind (supported, "
-                    "in a sub directory, unsupported, nested archive, hidden)"],
+                    "in a sub directory, unsupported, nested archive, hidden)",
+                    "tar member kind: regular / directory / hard link / symbolic link (thorough: fifo)",
+                    "member a link points at (any other member, or nothing)"],
            assumptions=["'100 MB' is 100 * 2^20 bytes, the project's own usage in read_file's docstring",
                         "sizes and limits are integers in [0, 2^50]",
-                        "zipfile / tarfile return at most the declared size for a member (stdlib behaviour)"],
+                        "zipfile / tarfile return at most the declared size for a member (stdlib behaviour)",
+                        "a tar link member declares size 0 and delivers the content of the member it resolves to; the "
+                        "property does not say whether links are to be extracted, only that no content above the "
+                        "per-member limit is read or handed on, whichever member name it is asked for under"],
            outside=["negative max_file_size (undocumented)", "what zipfile / tarfile do with forged size fields"],
            timeout={"quick": 100, "thorough": 900}),
     Kernel("K1c", "the live constants are the documented ones (7z limit and read_file default 100 MB; per-member "
@@ -1337,7 +1646,8 @@ KERNELS = [
            timeout={"quick": 100, "thorough": 900}),
     Kernel("K3", "sequence-repetition sites: references / characters allocated <= K * input bytes",
            k3, targets=_k3_targets, parts=_k3_parts,
-           perturb=[("zero_multiple", {"driver": "ods_sheet", "cells": 1, "K": 4096}),
+           perturb=[("zero_multiple", {"driver": "ods_sheet", "cells": 1, "K": 4096, "fix": None, "kinds": None,
+                                       "wraps": None, "rows": 1}),
                     ("zero_multiple", {"driver": "shared_text", "K": 4096})],
            stubs=["int as seen from ods_extractor / _shared / odt_extractor -> attribute texts become counted integers: "
                   "``sequence * n`` books len(sequence)*max(n,0) in a ledger and continues with min(n,2) copies",
@@ -1345,11 +1655,21 @@ KERNELS = [
                   "_build_file_list (a loop over range(number of files)) not run"],
            symbolic=["table:number-rows-repeated, table:number-columns-repeated of every cell", "text:c",
                      "7z number of files"],
-           choices=["cell kind empty / string / float", "text:s directly in text:p or inside text:span"],
+           choices=["number of column elements per row (0..2, thorough 3) and of rows (thorough 2)",
+                    "column element name: table:table-cell / table:covered-table-cell",
+                    "cell content: empty / string / float / empty with a comment / declared type without value / "
+                    "empty paragraph / empty with span attributes",
+                    "elements between table:table and the row: none / table-row-group / table-header-rows / "
+                    "table-rows / two nested groups",
+                    "text:s directly in text:p or inside text:span"],
            assumptions=["'a fixed multiple' is read generously: K = 4096 references (32 KiB) or characters per input "
                         "byte (thorough also 2^20); input bytes = serialized size of the element carrying the "
                         "attribute (7z: smallest archive with that header)",
-                        "attribute values are decimal integers in [-9, 10^18)"],
+                        "attribute values are decimal integers in [-9, 10^18)",
+                        "while the known finding C12-ods-repeat-uncapped still reproduces (pinned witness, replayed on "
+                        "every run) ledger entries of exactly its class - _extract_sheet repeating a sequence that "
+                        "carries a value - are not judged again, so that its counterexamples do not exhaust the "
+                        "per-part counterexample budget before the value-less structures are reached"],
            outside=["the padding loop of _extract_sheet (rows x columns, proportional to the product of the two "
                     "repeats) is not booked separately", "measured memory / time"],
            timeout={"quick": 100, "thorough": 900}),
